@@ -1,10 +1,10 @@
 package rules
 
 import (
-	"slipcheck/lenflow"
 	"fmt"
 	"go/token"
 	"go/types"
+	"slipcheck/lenflow"
 	"sort"
 	"strings"
 
